@@ -23,17 +23,42 @@ def expected_base(chunk, which, cid):
     n = len(vals)
     k = int(n * chunk.prms['BASE_LVL_LOOKBACK_PERC'] / 100)
     tail = vals[-k:] if k > 0 else vals          # vals[-0:] is the whole array (pinned behaviour, DESIGN D9)
-    return float(np.percentile(tail, chunk.prms['BASE_LVL_HEIGHT_PERC'])), mem
+    # simultaneous hits: their mutual order is not fixed by the property -- it matters only if the look-back cut can fall between them
+    order_free = (len(tail) == n) or not sel['dt'].duplicated().any()
+    return float(np.percentile(tail, chunk.prms['BASE_LVL_HEIGHT_PERC'])), mem, order_free
+
+
+def multi_hit_kept_ceilometer(k, seed):
+    """an instrument on the exclusion list sees the deck at every step; the instrument that is kept sees it at a few steps only, with
+    two or three hits per step: more kept *rows* than MAX_HITS_OKTA0, but not more kept *measurements*"""
+    import random
+    from .scenes import _df
+    rng = random.Random(seed * 71 + k)
+    nt = rng.choice([30, 40])
+    rows = []
+    steps = rng.sample(range(nt), rng.choice([1, 2]))
+    for t in range(nt):
+        rows.append(('B', -30.0 * t, 1000.0 + rng.uniform(-3, 3), 1))
+        if t in steps:
+            for ty in (1, 2, 3)[:rng.choice([2, 3])]:
+                rows.append(('A', -30.0 * t - 5, 1040.0 + 10 * ty + rng.uniform(0, 3), ty))
+        else:
+            rows.append(('A', -30.0 * t - 5, np.nan, 0))
+    return _df(rows), {'k': k, 'seed': seed, 'layout': 'multi_hit_kept_ceilometer', 'ceilos': ['A', 'B'], 'rows': len(rows)}
 
 
 def check(k, seed):
     import random
     rng = random.Random(seed * 3 + k)
-    df, desc = scene(k, seed)
-    prms = prms_variant(k, seed)
+    if k % 8 == 5:
+        df, desc = multi_hit_kept_ceilometer(k, seed)
+        prms = {'EXCLUDE_FOR_BASE_HEIGHT_CALC': ['B'], 'MAX_HITS_OKTA0': 3}
+    else:
+        df, desc = scene(k, seed)
+        prms = prms_variant(k, seed)
     prms['BASE_LVL_HEIGHT_PERC'] = rng.choice([0, 5, 50, 95, 100])
-    prms['BASE_LVL_LOOKBACK_PERC'] = rng.choice([1, 30, 34, 50, 100])
-    if len(desc['ceilos']) > 1 and rng.random() < 0.5:
+    prms['BASE_LVL_LOOKBACK_PERC'] = rng.choice([1, 30, 34, 50, 100]) if k % 8 != 5 else 100
+    if k % 8 != 5 and len(desc['ceilos']) > 1 and rng.random() < 0.5:
         prms['EXCLUDE_FOR_BASE_HEIGHT_CALC'] = rng.sample(desc['ceilos'], rng.choice([1, len(desc['ceilos']) - 1]))
     fails = []
     try:
@@ -46,9 +71,9 @@ def check(k, seed):
         if list(tab['height_base']) != sorted(tab['height_base']):
             fails.append(f'{which}: table not sorted by ascending base')
         for _, row in tab.iterrows():
-            exp, mem = expected_base(chunk, which, row['cluster_id'])
+            exp, mem, order_free = expected_base(chunk, which, row['cluster_id'])
             hs = mem['height'].to_numpy()
-            ties = mem['dt'].duplicated().any()
+            ties = not order_free
             if not (np.nanmin(hs) - 1e-9 <= row['height_base'] <= np.nanmax(hs) + 1e-9):
                 fails.append(f'{which} {row["cluster_id"]}: base {row["height_base"]} outside [{np.nanmin(hs)}, {np.nanmax(hs)}]')
             if not ties and abs(row['height_base'] - exp) > 1e-6:
